@@ -86,7 +86,7 @@ func runC07(t *T) {
 	B, setupB, cleanB := k.build(t)
 	defer cleanB()
 	g := newFsGen(t, k.alpha, 3)
-	snapB := takeSnapshot(setupB, snapOpts{})
+	snapB := takeSnapshot(setupB, snapOpts{Special: true})
 	g.observe(snapB)
 	n := 2 + c.Draw(18)
 	t.Logf("kind=%s steps=%d", k.name, n)
@@ -224,8 +224,8 @@ func runC07(t *T) {
 			}
 			views++
 		}
-		sa := takeSnapshot(setupA, snapOpts{})
-		snapB = takeSnapshot(setupB, snapOpts{})
+		sa := takeSnapshot(setupA, snapOpts{Special: true})
+		snapB = takeSnapshot(setupB, snapOpts{Special: true})
 		if sa.Text != snapB.Text {
 			t.Fail("state", "C07:"+k.name+":state-differs", fmt.Sprintf("after step %d the instance operated through the view differs from the one operated directly:\n%s", i, diffText(sa, snapB, "view  ", "direct")))
 		}
@@ -250,7 +250,7 @@ func c07Probe(kindIdx int, dir string, view Op, setup ...Op) func(t *T) {
 			applyOp(setupA, o)
 			applyOp(setupB, o)
 		}
-		snapB := takeSnapshot(setupB, snapOpts{})
+		snapB := takeSnapshot(setupB, snapOpts{Special: true})
 		v, err := hackpadfs.Sub(A, dir)
 		must(t, err)
 		ob := view
@@ -268,7 +268,7 @@ func c07Probe(kindIdx int, dir string, view Op, setup ...Op) func(t *T) {
 				t.Fail("errpath", sig+":errpath", fmt.Sprintf("view names %q, parent names %q", gs.Path, ws.Path))
 			}
 		}
-		if sa, sb := takeSnapshot(setupA, snapOpts{}), takeSnapshot(setupB, snapOpts{}); sa.Text != sb.Text {
+		if sa, sb := takeSnapshot(setupA, snapOpts{Special: true}), takeSnapshot(setupB, snapOpts{Special: true}); sa.Text != sb.Text {
 			t.Fail("state", "C07:"+k.name+":state-differs", diffText(sa, sb, "view  ", "direct"))
 		}
 	}
